@@ -101,6 +101,10 @@ def gen_geometry(rng, D, cls):
     if cls == "tight" and rng.random() < 0.5:
         g["plb"] = None
         g["pub"] = None
+    if cls == "log" and rng.random() < 0.3:
+        # plausible bounds omitted: they default to the hard bounds (still >= one decade: log transform)
+        g["plb"] = None
+        g["pub"] = None
     return g
 
 
@@ -343,6 +347,7 @@ def gen_options(rng, D, prof, noise_mode):
     maybe("search_method", 0.15, lambda: _choice(rng, [[["ES-ell", 1]], [["ES-wcm", 1]], [["ES-wcm", 1], ["ES-ell", 1], ["ES-wcm", 0]],
                                                         [["ES-ell", 0], ["ES-wcm", 1], ["ES-ell", 1], ["ES-wcm", 0]]]))
     maybe("force_poll_mesh", 0.12, lambda: True)
+    maybe("search_size_locked", 0.05, lambda: False)
     # options that gate rarely taken branches of the GP refit code
     maybe("gp_warnings", 0.12, lambda: True)
     maybe("double_refit", 0.08, lambda: True)
@@ -354,7 +359,7 @@ def gen_options(rng, D, prof, noise_mode):
         for name, val in rng.sample([("skip_poll_after_search", False), ("consecutive_skipping", False), ("poll_training", False),
                                      ("skip_poll", False), ("hedge_gamma", 0), ("hedge_gamma", 0.25), ("search_n_try", 1),
                                      ("search_n_try", 2), ("fun_eval_start", 0), ("tol_stall_iters", 1), ("accelerate_mesh_steps", 1),
-                                     ("min_refit_time", 1), ("tol_poi", 0.0), ("search_grid_number", 6), ("gp_mean_percentile", 50)],
+                                     ("min_refit_time", 1), ("tol_poi", 0.0), ("search_grid_number", 6), ("gp_mean_percentile", 50), ("search_size_locked", False), ("search_size_locked", False)],
                                     rng.randrange(1, 4)):
             if not (name == "sloppy_improvement" and prof.get("name") == "c04"):
                 o[name] = val
@@ -491,6 +496,34 @@ def make_scenario(seed, profile=None, index=0):
                                                  delta=_r(_choice(rng, [-1, 1]) * 10 ** rng.uniform(0, 5), 3))
                                             for _ in range(rng.randrange(1, 4))])
     scn["clock"] = clock
+    if rng.random() < prof.get("reuse_arrays_p", 0.0):
+        scn["reuse_arrays"] = _choice(rng, ["construct", "construct", "run"])
+        if scn.get("cons") is None and scn["plb"] is not None and rng.random() < 0.5:
+            # no starting point: it is drawn from whatever the (possibly modified) plausible box says
+            scn["x0"], scn["x0_class"] = None, "absent"
+    if cons is not None and rng.random() < prof.get("pre_relaxed_p", 0.0):
+        # an earlier optimisation in the same process on the same box/seed with a *relaxed* constraint region:
+        # identical candidate points, different feasibility (exposes feasibility state shared between instances)
+        import copy as _copy
+        other = _copy.deepcopy({k: v for k, v in scn.items() if k not in ("pre",)})
+        oc = other["cons"]
+
+        def relax(c):
+            if c["kind"] == "ball":
+                c["r"] = c["r"] * 3.0
+            elif c["kind"] == "halfspace":
+                c["b"] = c["b"] + 0.5
+            elif c["kind"] == "slab":
+                c["w"] = c["w"] * 10.0
+            elif c["kind"] == "annulus":
+                c["r1"], c["r2"] = c["r1"] * 0.3, c["r2"] * 2.0
+            for p_ in c.get("parts", []):
+                relax(p_)
+        relax(oc)
+        other["options"] = dict(other["options"])
+        other["options"]["max_fun_evals"] = min(int(other["options"].get("max_fun_evals", 40)), 40)
+        other["faults"] = []
+        scn["pre"] = [dict(op="opt", scn=other)]
     scn["faults"] = []
     # how the (well-behaved) target spells its finite real scalar: python float, numpy scalar, 1-element or 0-d array
     scn["ret_type"] = _choice(rng, ["float", "np64", "arr1", "arr0"], prof.get("ret_type_w", [6, 2, 1, 1]))
